@@ -140,6 +140,28 @@ func init() {
 			}
 		}})
 
+	register(&Rule{ID: "C09.nonzero", Props: []string{"C09", "C03", "C05"}, Floor: 1,
+		Doc: "the take rate never writes a staked total of zero: the deduction is skipped unless the very product that is stored exceeds one (the take-rate path has no share reset, and a zero total makes the next delegation divide by zero)",
+		Run: func(e *Engine, r *RuleRun) {
+			fn := r.Need("keeper.Keeper.DeductAssetsWithTakeRate")
+			if fn == nil {
+				return
+			}
+			k, fa := FuncKey(fn), e.FA(fn)
+			sts := StoresToField(fn, "types.AllianceAsset", "TotalTokens")
+			if len(sts) != 1 {
+				r.Bad(k, "deduction site", "expected one TotalTokens store", nil)
+				return
+			}
+			st := sts[0]
+			v := fa.Term(st.Val)
+			if !v.IsCall("math.LegacyDec.TruncateInt") {
+				r.Bad(k, "stored total is guarded against zero", "the stored total is not the truncation of a guarded product: "+v.String(), nil, r.P(st))
+				return
+			}
+			r.Check(fa.HasFact(st, constName(v.Args[0]), ">", "1"), k, "stored total is guarded against zero", "the store is dominated by `product > 1` on the very term whose truncation is stored", "the take rate can store floor(x) for a product x that was not tested to exceed one: the staked total can reach zero while validator-share records stay (no reset on this path) and the next Delegate divides by zero", r.P(st))
+		}})
+
 	register(&Rule{ID: "C09.clock", Props: []string{"C09"}, Floor: 1,
 		Doc: "every non-error exit on which n was computed passes SetLastRewardClaimTime",
 		Run: func(e *Engine, r *RuleRun) {
@@ -251,7 +273,7 @@ func init() {
 			}
 		}})
 
-	register(&Rule{ID: "C14.clockstart", Props: []string{"C14"}, Floor: 2,
+	register(&Rule{ID: "C14.clockstart", Props: []string{"C14", "C17"}, Floor: 2,
 		Doc: "the decay clock is restarted by an update exactly when decay was inactive before, with the same notion of `inactive` as the decay hook",
 		Run: func(e *Engine, r *RuleRun) {
 			up := r.Need("keeper.Keeper.UpdateAllianceAsset")
